@@ -39,7 +39,7 @@ def main():
     log["confirmed"] = confirmed
     print("confirmed" if confirmed else "NOT CONFIRMED", log["ran"])
     if not confirmed:
-        json.dump(log, open("/tmp/mut_out/%s.rejected.json" % sid, "w"), indent=1)
+        json.dump(log, open("/tmp/mut_out3/%s.rejected.json" % sid, "w"), indent=1)
         return 1
     dst = os.path.join(V, "seeded", sid)
     shutil.rmtree(dst, ignore_errors=True)
